@@ -23,7 +23,10 @@ LEVEL_TEXT = ("Lean, for every plan and every magnitude: a conversion that retur
               "magnitudes; sizes are multiplicative over unit products/quotients/powers (Proofs/SizeOf). Per run the kernel "
               "evaluates the model's planner on the graph regenerated from /repo for a family of unit pairs (every named unit of a "
               "fundamental dimension to and from its SI unit, quick: a 60-pair subset) and checks the coefficient against the C09 "
-              "size certificate (itself re-checked by the kernel). The planner as a whole is NOT proved sound - it is a heuristic "
+              "size certificate (itself re-checked by the kernel). The path search is proved sound for every graph and state "
+              "(findPath_sound) and with it every directly settled conversion is exact in every state reached by unit operations "
+              "and size-consistent declarations (convert_direct_exact, C05.direct_conversion_exact; graphs without offsets). "
+              "The factor-matching planner as a whole is NOT proved sound - it is a heuristic "
               "that is wrong outside a fragment - so this check is partial: the model of the planner is tied to the code by "
               "differential execution (plans compared structurally), and the exact-size oracle runs on the real library over the "
               "property's whole input space. Known findings: six structural classes in which the pinned planner returns wrong values "
@@ -37,8 +40,9 @@ THEOREMS = [
     "Measured.convert_result_unit", "Measured.convert_ok", "Measured.applyPlanV_affine", "Measured.applyPlan_val",
     "Measured.C04.value_determined_by_coefficient", "Measured.C04.convert_value",
     "Measured.Obligations.family_conversions_exact",
+    "Measured.findPath_sound", "Measured.convert_direct_exact", "Measured.C05.direct_conversion_exact",
 ]
-LEAN_TARGETS = ["Props.C04", "Obligations.C04", "Obligations.C09"]
+LEAN_TARGETS = ["Props.C04", "Props.C05", "Obligations.C04", "Obligations.C09"]
 THOROUGH_TARGETS = ["ObligationsFull.C04Full"]
 QUICK = {"chunks": 4, "ops": 1500}
 THOROUGH = {"chunks": 16, "ops": 9000}
